@@ -22,14 +22,16 @@ PROPS = {
     "C15": {
         "rule": "real client with 1..2 reactor threads and 1..4 connections per host; 1..3 issuing threads x 1..24 requests with unique tags and optional "
                 "time-outs against a scripted server whose per-request behaviour is drawn (immediate, delayed, byte-dribbled, chunked, close after the "
-                "response, never, answer only after the client's time-out; answers leave a connection in request order); thread stalls injected; plain "
-                "and ThreadSanitizer builds; " + NONTRIVIAL,
+                "response, never, answer only after the client's time-out; answers leave a connection in request order; a quarter of the runs with a server "
+                "that closes most connections after the response); in part of the runs another application thread opens connections of its own to the same "
+                "server whenever a descriptor was released (descriptor-number reuse); thread stalls and slow thread starts injected; plain and "
+                "ThreadSanitizer builds, and a ThreadSanitizer build in which every atomic operation is a decision point; " + NONTRIVIAL,
         "probes_expected": ["behaviour-immediate", "behaviour-delayed", "behaviour-dribble", "behaviour-chunked", "behaviour-close-after", "behaviour-never",
-                            "behaviour-late", "connection-limit-reached", "reconnected", "request-never-sent"],
+                            "behaviour-late", "connection-limit-reached", "reconnected", "request-never-sent", "other-connection-opened"],
         "assumptions": ["requests small enough for the socket buffer (the client's partial-send path is an unimplemented stub)",
                         "a request without time-out behind a request that is never answered is not judged"],
-        "quick": {"batches": [("c15_client", "plain", 12000), ("c15_client", "tsan", 1500)], "chunk": 100},
-        "thorough": {"batches": [("c15_client", "plain", 80000), ("c15_client", "tsan", 10000), ("c15_client", "asan", 10000)], "chunk": 200},
+        "quick": {"batches": [("c15_client", "plain", 12000), ("c15_client", "tsan", 1500), ("c15_client", "tsanat", 8000), ("c15_hostile_server", "tsanat", 3000)], "chunk": 100},
+        "thorough": {"batches": [("c15_client", "plain", 80000), ("c15_client", "tsan", 10000), ("c15_client", "asan", 10000), ("c15_client", "tsanat", 100000), ("c15_hostile_server", "tsanat", 30000)], "chunk": 200},
     },
     "C03": {
         "rule": "server side: 1..4 hostile connections x 1..3 hostile messages each (50 % generated requests with 1..4 mutations, 40 % valid skeletons with hostile "
@@ -80,8 +82,8 @@ PROPS = {
                             "silence-close-near-timeout", "silence-abort-near-timeout", "stall-beyond-timeout",
                             "abandon-at-once-close", "abandon-at-once-abort", "abandon-at-once-half-close", "tmo-then-close", "tmo-then-abort"]],
         "assumptions": ["the descriptor census is taken after all clients are gone and the longest time-out plus 1.5 s have elapsed"],
-        "quick": {"batches": [("c08_lifecycle", "plain", 15000), ("c08_moved_timeout", "plain", 16), ("c08_lifecycle", "asan", 1500), ("c08_lifecycle", "tsan", 500)], "chunk": 100},
-        "thorough": {"batches": [("c08_lifecycle", "plain", 80000), ("c08_moved_timeout", "plain", 64), ("c08_lifecycle", "asan", 8000), ("c08_lifecycle", "tsan", 8000)], "chunk": 200},
+        "quick": {"batches": [("c08_lifecycle", "plain", 15000), ("c08_moved_timeout", "plain", 16), ("c08_lifecycle", "asan", 1500), ("c08_lifecycle", "tsan", 500), ("c08_lifecycle", "tsanat", 1000)], "chunk": 100},
+        "thorough": {"batches": [("c08_lifecycle", "plain", 80000), ("c08_moved_timeout", "plain", 64), ("c08_lifecycle", "asan", 8000), ("c08_lifecycle", "tsan", 8000), ("c08_lifecycle", "tsanat", 8000)], "chunk": 200},
     },
     "C14": {
         "rule": "size limit drawn from 64 B..8 KiB, header/body time-outs from 1..10 s (all orders), 1..3 workers; per connection either a request of "
@@ -102,8 +104,8 @@ PROPS = {
         "probes_expected": ["eagain-branch", "short-write", "write-from-foreign-thread", "file-buffer", "file-buffer-with-would-block",
                             "input-without-write-while-writes-pending", "http-size", "http-async", "http-file", "http-stream"],
         "assumptions": ["liveness is judged 20 simulated seconds beyond three times what the reader's own pace needs"],
-        "quick": {"batches": [("c06_writes", "plain", 8000), ("c06_small", "plain", 10000), ("c06_http", "plain", 8000), ("c06_small", "tsan", 3000), ("c06_http", "tsan", 800)], "chunk": 100},
-        "thorough": {"batches": [("c06_writes", "plain", 150000), ("c06_small", "plain", 150000), ("c06_http", "plain", 150000), ("c06_small", "tsan", 30000), ("c06_small", "asan", 30000), ("c06_http", "tsan", 15000), ("c06_http", "asan", 15000)], "chunk": 500},
+        "quick": {"batches": [("c06_writes", "plain", 8000), ("c06_small", "plain", 10000), ("c06_http", "plain", 8000), ("c06_small", "tsan", 3000), ("c06_http", "tsan", 800), ("c06_small", "tsanat", 3000)], "chunk": 100},
+        "thorough": {"batches": [("c06_writes", "plain", 150000), ("c06_small", "plain", 150000), ("c06_http", "plain", 150000), ("c06_small", "tsan", 30000), ("c06_small", "asan", 30000), ("c06_http", "tsan", 15000), ("c06_http", "asan", 15000), ("c06_small", "tsanat", 30000), ("c06_http", "tsanat", 3000)], "chunk": 500},
     },
     "C07": {
         "rule": "one worker; connection 0 requests 1..4 responses larger than its buffers and stops reading for 0.2..3 s; 1..3 neighbour connections "
@@ -120,8 +122,8 @@ PROPS = {
         "probes_expected": ["shutdown-idle", "shutdown-with-load", "shutdown-with-connections-open", "shutdown-with-requests-in-flight",
                             "method-not-allowed", "not-found", "method-without-route-table", "late-client"],
         "assumptions": [],
-        "quick": {"batches": [("c09_serving", "plain", 15000), ("c09_serving", "tsan", 2500)], "chunk": 100},
-        "thorough": {"batches": [("c09_serving", "plain", 100000), ("c09_serving", "tsan", 20000)], "chunk": 500},
+        "quick": {"batches": [("c09_serving", "plain", 15000), ("c09_serving", "tsan", 2500), ("c09_serving", "tsanat", 6000)], "chunk": 100},
+        "thorough": {"batches": [("c09_serving", "plain", 100000), ("c09_serving", "tsan", 20000), ("c09_serving", "tsanat", 60000)], "chunk": 500},
     },
     "C11": {
         "rule": "promise programs (1..4 roots, 1..10 then/whenAll/whenAny/whenAll(range) nodes, continuation kinds value/void/"
@@ -143,16 +145,16 @@ PROPS = {
                             "shape-derived-chain2", "shape-void-root", "shape-void-derived", "settle-reject", "attacher-builds-chain",
                             "combinator-all", "combinator-any", "combinator-with-rejection"],
         "assumptions": ["the promise derived from a continuation that returns nothing is never fulfilled by design; only at-most-once is demanded for continuations attached to it"],
-        "quick": {"batches": [("c12_settle_attach", "plain", 150000), ("c12_settle_attach", "tsan", 15000), ("c12_combinators", "plain", 60000), ("c12_combinators", "tsan", 8000)], "chunk": 2000},
-        "thorough": {"batches": [("c12_settle_attach", "plain", 1500000), ("c12_settle_attach", "tsan", 150000), ("c12_combinators", "plain", 600000), ("c12_combinators", "tsan", 80000)], "chunk": 5000},
+        "quick": {"batches": [("c12_settle_attach", "plain", 150000), ("c12_settle_attach", "tsan", 15000), ("c12_combinators", "plain", 60000), ("c12_combinators", "tsan", 8000), ("c12_settle_attach", "tsanat", 30000), ("c12_combinators", "tsanat", 20000)], "chunk": 2000},
+        "thorough": {"batches": [("c12_settle_attach", "plain", 1500000), ("c12_settle_attach", "tsan", 150000), ("c12_combinators", "plain", 600000), ("c12_combinators", "tsan", 80000), ("c12_settle_attach", "tsanat", 300000), ("c12_combinators", "tsanat", 200000)], "chunk": 5000},
     },
     "C13": {
         "rule": "plans (1..4 producers x 1..5 pushes, start delays, gaps, prefill, pollable or plain queue) and schedules "
                 "(uniform random / PCT / sticky) drawn from VERIF_SEED; " + NONTRIVIAL,
         "probes_expected": ["consumer-woken", "prefilled-before-consumer", "plain-queue"],
         "assumptions": ["single consumer (as in Pistache's own use of the queue)"],
-        "quick": {"batches": [("c13_queue", "plain", 150000), ("c13_queue", "tsan", 15000)], "chunk": 2000},
-        "thorough": {"batches": [("c13_queue", "plain", 1000000), ("c13_queue", "tsan", 150000)], "chunk": 5000},
+        "quick": {"batches": [("c13_queue", "plain", 150000), ("c13_queue", "tsan", 15000), ("c13_queue", "tsanat", 30000)], "chunk": 2000},
+        "thorough": {"batches": [("c13_queue", "plain", 1000000), ("c13_queue", "tsan", 150000), ("c13_queue", "tsanat", 300000)], "chunk": 5000},
     },
 }
 
